@@ -115,6 +115,7 @@ type sim struct {
 	panics   int  // recovered panics (monotone)
 	writes   int  // API writes seen (monotone), for fix-point detection
 	timeouts int
+	baseG    int // goroutines before any reconcile was started
 }
 
 func callKey(c world.Call) string { return c.Actor + "/" + c.Verb + "/" + c.Kind + "/" + c.Name + "/" + c.Sub }
@@ -228,6 +229,20 @@ func (s *sim) waitFor(cond func() bool, max time.Duration) bool {
 	}
 }
 
+// goroutinesSettled waits until no goroutine is created or ends any more: a worker of ParallelizeUntil signals its
+// WaitGroup before its deferred HandleCrash runs, so a panic may be reported after the reconcile has returned.
+func (s *sim) goroutinesSettled() {
+	same, last := 0, runtime.NumGoroutine()
+	for i := 0; i < 400 && same < 4; i++ {
+		time.Sleep(50 * time.Microsecond)
+		if n := runtime.NumGoroutine(); n == last {
+			same++
+		} else {
+			same, last = 0, n
+		}
+	}
+}
+
 // pause waits briefly for cond without counting a miss (the expected effect is optional)
 func pause(cond func() bool, max time.Duration) {
 	deadline := time.Now().Add(max)
@@ -292,7 +307,7 @@ func (s *sim) recordPanic(r any, where string) {
 	s.mu.Lock()
 	s.panics++
 	s.mu.Unlock()
-	s.w.Emit(trace.M{"e": "Panic", "where": where, "fn": fn, "msg": msg, "mem": Snapshot(s.cluster.NodePoolState, ctlPool, s.idx)})
+	s.w.Emit(trace.M{"e": "Panic", "where": where, "fn": fn, "msg": msg})
 }
 
 func (s *sim) nPanics() int {
@@ -480,6 +495,7 @@ func (s *sim) step(st Step) error {
 			return s.nWrites() > wr0 && (s.snapRes() < res0 || s.nPanics() > pan0 || s.procDone(proc))
 		}, short)
 		w.ClearFaults()
+		s.goroutinesSettled()
 		s.ensureFinalizers()
 		if actor == actorDis {
 			// StartCommand goes on in memory (MarkForDeletion, enqueue) and the round ends unless other commands are held
@@ -663,6 +679,7 @@ func (s *sim) drain() {
 		for s.release(func(world.Call) bool { return true }) {
 		}
 		if s.procDone("prov") && s.procDone("dep") && s.procDone("dis") {
+			s.goroutinesSettled()
 			return
 		}
 		time.Sleep(200 * time.Microsecond)
@@ -677,6 +694,7 @@ func (s *sim) drain() {
 func (s *sim) settle(tag string) {
 	s.drain()
 	s.ensureFinalizers()
+	converged := false
 	for round := 0; round < 12; round++ {
 		w0 := s.nWrites()
 		s.mu.Lock()
@@ -713,9 +731,11 @@ func (s *sim) settle(tag string) {
 			st := s.procs[p]
 			s.mu.Unlock()
 			<-st.done
+			s.goroutinesSettled()
 			s.ensureFinalizers()
 		}
 		if s.nWrites() == w0 && round > 0 {
+			converged = true
 			break
 		}
 	}
@@ -728,7 +748,7 @@ func (s *sim) settle(tag string) {
 		}
 	}
 	np := s.pool()
-	s.w.Emit(trace.M{"e": "Quiesce", "tag": tag, "live": live, "deleting": deleting, "replicas": int(lo.FromPtr(np.Spec.Replicas)),
+	s.w.Emit(trace.M{"e": "Quiesce", "tag": tag, "converged": converged, "live": live, "deleting": deleting, "replicas": int(lo.FromPtr(np.Spec.Replicas)),
 		"limit": s.cfg.Limit, "queued": len(s.queue.GetCommands()), "mem": Snapshot(s.cluster.NodePoolState, ctlPool, s.idx)})
 }
 
@@ -773,9 +793,21 @@ func runCtl(b CtlBehaviour, tw *trace.Writer) error {
 	}
 	s.cluster.SetSynced(true)
 	s.mem("Init")
+	s.baseG = runtime.NumGoroutine()
 	s.gating = true
 	for _, st := range b.Steps {
-		w.Emit(trace.M{"e": "Step", "a": st.A, "n": st.N, "c": st.C})
+		okS, wk, wi := "-", "-", 0
+		if st.Ok != nil {
+			okS = fmt.Sprint(*st.Ok)
+		}
+		if len(st.W) == 2 {
+			wk = fmt.Sprint(st.W[0])
+			if f, isF := st.W[1].(float64); isF {
+				wi = int(f)
+			}
+		}
+		w.Emit(trace.M{"e": "Step", "a": st.A, "n": st.N, "c": st.C, "r": st.R, "ok": okS, "what": lo.Ternary(st.What == "", "-", st.What),
+			"timeout": st.Timeout, "wk": wk, "wi": wi})
 		if err := s.step(st); err != nil {
 			return err
 		}
@@ -786,6 +818,7 @@ func runCtl(b CtlBehaviour, tw *trace.Writer) error {
 		s.scale(b.Cfg.Limit)
 		s.settle("probe")
 	}
+	pause(func() bool { return runtime.NumGoroutine() <= s.baseG }, 300*time.Millisecond)
 	w.Emit(trace.M{"e": "EndTrace", "timeouts": s.timeouts})
 	w.Gate = nil
 	return nil
